@@ -31,6 +31,8 @@ var IterPrelude = []string{
 	"nestgen = (n) -> for i <- fromto(0, n) for j <- fromto(0, i) yield i * 10 + j",
 	"kval = () -> yield 5",
 	"viay = () -> {\nq = kval()\nyield q + 1\nq\n}",
+	"addk = (k) -> (x) -> x + k",
+	"hq = addk(7)",
 	"fa = fact(3)",
 	"fb = fact(10)",
 	"facc = (p) -> {\nq = p * 2\n() -> {\ni = 0\nwhile i < 3 {\nyield p + q + i\ni = i + 1\n}\n}\n}",
@@ -190,14 +192,18 @@ func (g *IterGen) Session() []string {
 	n := 2 + g.pick(5)
 	for i := 0; i < n; i++ {
 		d := g.pick(4)
-		switch g.pick(10) {
+		switch g.pick(11) {
 		case 0, 1, 2:
 			stmts = append(stmts, g.Loop(d, false))
 		case 3: // several loops in one statement
 			stmts = append(stmts, "{\n"+g.Loop(d, false)+"\n"+g.Loop(g.pick(3), false)+"\nacc\n}")
-		case 4: // a loop in a function, result used
+		case 4: // a loop in a function, result used; the body may call a closure between the resumptions
 			f := g.fresh("f")
-			stmts = append(stmts, f+" = (n) -> {\ns = 0\nfor v <- "+g.Iter(d)+" s = s + v + n\ns\n}", f+"(1) + "+f+"(2)")
+			add := "v + n"
+			if g.pick(2) == 0 {
+				add = "hq(v) + n"
+			}
+			stmts = append(stmts, f+" = (n) -> {\ns = 0\nfor v <- "+g.Iter(d)+" s = s + "+add+"\ns\n}", f+"(1) + "+f+"(2)", "["+f+"(3), "+f+"(3)]")
 		case 5: // a user generator with a loop inside, consumed twice
 			gn := g.fresh("g")
 			stmts = append(stmts, gn+" = (n) -> {\n"+g.Loop(d, true)+"\nyield n\n}",
@@ -210,6 +216,15 @@ func (g *IterGen) Session() []string {
 			stmts = append(stmts, fmt.Sprintf("%s = fact(%d)", b, g.pick(9)), "for v <- "+b+"() acc = acc + [sq(v)]", "for v, w <- "+b+"(), "+b+"() acc = acc + [v * w]")
 		case 8: // yield without an enclosing loop only evaluates to its operand
 			stmts = append(stmts, fmt.Sprintf("yield %d", g.pick(9)), "kval()", "viay()", "[kval(), kval() + 1]")
+		case 9: // a generator closing over variables of the function that runs the loop, which the body keeps changing
+			f := g.fresh("f")
+			k := 1 + g.pick(4)
+			src := "gg()"
+			if g.pick(3) == 0 {
+				src = "map(sq, gg)"
+			}
+			stmts = append(stmts, fmt.Sprintf("%s = (n) -> {\nstop = false\nlim = n\ngg = () -> {\ni = 0\nwhile !stop {\nyield i * %d + lim\ni = i + 1\n}\n}\nr = []\nfor v <- %s {\nr = r + [v]\nlim = lim + 10\nif #r >= %d stop = true\n}\nr\n}", f, k, src, 2+g.pick(3)),
+				fmt.Sprintf("%s(%d)", f, g.pick(9)), fmt.Sprintf("[%s(1), %s(2)]", f, f))
 		default: // early return from nested loops in a function, then the same loops again
 			f := g.fresh("f")
 			stmts = append(stmts, f+" = (n) -> {\nfor i <- "+g.Iter(d)+" {\nfor j <- fromto(0, 4) {\nif i * j == n return [i, j]\n}\n}\n}",
